@@ -1,6 +1,6 @@
 \* Generated by tools/checks/limits.py (render_cfg) from the limits table of the pinned tree, seed 1.
 \* The check regenerates this text at run time from `vh limits table`, so a changed table is followed.
-\* run with -simulate num=N -depth 17
+\* second builder (groups of valid units around the per-group totals); run with -simulate num=N -depth 8
 CONSTANTS
     Impl = "intended"
     Tier = "quick"
@@ -37,8 +37,8 @@ CONSTANTS
     MidCount = 40
     MidPrice = 3021220
     MidDeposit = 18607679
-    BuildSteps = 14
+    BuildSteps = 5
 INIT BuildInit
-NEXT BuildNext
+NEXT BuildNext2
 INVARIANTS AdmitImpliesWithin AcceptedOnlyWithin StoredWithinLimits
 ACTION_CONSTRAINT ExportMsg
